@@ -5,15 +5,21 @@ parse stage and every lift/SSA error of a user definition is displayed and
 makes the exit status 1, for every failure class, order and option set that
 does not allow-list it; exit 0 only if every user definition was analysed).
 Derived, not assumed (coq/props/C02.v over Model.Includes + Model.Front +
-Model.Runner, all file systems) for FOUR of the ten failure classes: a named
-path that cannot be opened, an unreadable file, a named file that does not
-parse, an unresolvable include of a named file put an error report into the
-project handed to the runner whose location passes the file filter, so it is
-displayed and the exit status is 1.  The other SIX classes (duplicate
-parameter, lift failure, pragma, several mains, invalid tuple / anonymous
-component, duplicate definition) have no class theorem: they are covered by
-the injection matrix below only (+ the class table check, whose table is read
-from Spec.NoSilentSpec.class_table through the extracted driver);
+Model.FrontStages + Model.Runner, all file systems and syntax trees) for EIGHT
+of the ten failure classes: a named path that cannot be opened, an unreadable
+file, a named file that does not parse, an unresolvable include of a named
+file (second pass), an unsupported compiler version, several main components,
+a template / function of a named file that the desugarer rejects (invalid
+tuple / anonymous component), a repeated parameter name (third pass:
+Model.FrontStages mirrors check_compiler_version and the main-component match
+and joins C18's Model.Desugar, C13's Model.LiftFull and C01's chain) put an
+error report into the project handed to the runner whose location passes the
+file filter, so it is displayed and the exit status is 1.  LiftFailure is
+derived up to the file id inside the error value (not returned by the
+lifting / SSA mirrors).  DuplicateDefinition (ProgramArchive::new, no mirror)
+has no class theorem: it is covered by the injection matrix below only (+ the
+class table check, whose table is read from Spec.NoSilentSpec.class_table
+through the extracted driver);
 the user-input ids are the ids of the named files whatever the order in which
 they are read.  Tie of that front to the code (engine front, lib/c02front.py):
 Model.Includes.run_project + Model.Front on the file system of every project of
@@ -37,6 +43,7 @@ import e2e
 
 def gen(ctx):
     e2e.gen_category()
+    c02front.gen_compiler_version()
 
 
 LIB = """pragma circom 2.0.0;
@@ -270,9 +277,9 @@ def coq_class(cls):
     return MATRIX_CLASS_ALIAS.get(cls) or "".join(w.capitalize() for w in cls.split("-"))
 
 
-def producers(t, pf_code_id):
+def producers(t, pf_code_id, codes):
     """The shapes (Spec.NoSilentSpec.report_shape, Proofs.NoSilentProofs.failure_event_shape) of the error-level
-    reports in the ground truth of a project."""
+    reports in the ground truth of a project. codes: the ids of Model.FrontStages.codes in the tree under test."""
     out = set()
     user = set(t.user_files)
     for q in t.parse:
@@ -280,6 +287,7 @@ def producers(t, pf_code_id):
         if r["level"] != "error":
             continue
         in_user = any(f in user for f in r["pfiles"])
+        form = c02front.stage_form(r)
         if r["id"] == pf_code_id:
             if not r["pfiles"]:
                 out.add("ShOsError")
@@ -287,15 +295,19 @@ def producers(t, pf_code_id):
                 out.add("ShIncludeError")
             elif in_user:
                 out.add("ShParseError")
-        elif not r["pfiles"]:
-            out.add("ShOtherUnlabelled")
+        elif form == "version_error" and r["id"] == codes["version_error"]["id"]:
+            out.add("ShVersionError")
+        elif form == "multiple_main" and r["id"] == codes["multiple_main"]["id"]:
+            out.add("ShMultipleMain")
+        elif form == "sugar" and r["id"] in (codes["tuple"]["id"], codes["anonymous"]["id"]) and in_user:
+            out.add("ShSugarError")
         elif in_user:
             out.add("ShOtherInNamedFile")
     for d in t.defs:
         if d["user"] and d["err"] is not None:
             r = t.payload[d["err"]][0]
             if r["level"] == "error" and (not r["pfiles"] or any(f in user for f in r["pfiles"])):
-                out.add("ShLiftError")
+                out.add("ShParamCollision" if r["id"] == codes["param_collision"]["id"] else "ShLiftError")
     return out
 
 
@@ -346,8 +358,12 @@ def run(ctx, proofs):
         pf_code = front_stats["parse_fail_code"]
         # Spec.NoSilentSpec.class_table, printed by the extracted driver: class -> (producer, shape)
         coq_table = c02front.class_table()
-        derived = sorted(c for c, (prod, _) in coq_table.items() if prod == "ByIncludes")
-        matrix_only = sorted(c for c, (prod, _) in coq_table.items() if prod != "ByIncludes")
+        derived = sorted(c for c, (_, dv, _) in coq_table.items() if dv == "Derived")
+        derived_partly = sorted(c for c, (_, dv, _) in coq_table.items() if dv == "DerivedUpToLocation")
+        matrix_only = sorted(c for c, (_, dv, _) in coq_table.items() if dv == "Assumed")
+        stage_stats = front_stats.pop("stage")
+        metas_broken = stage_stats.pop("metas_hypothesis_broken")
+        stage_codes = stage_stats["codes"]
         # hypothesis wf_project of the theorems (one definition per (kind, name)), on the definitions of every ground truth
         wf_holds, wf_broken = 0, []
         for p, t in zip(projects, truths):
@@ -422,12 +438,12 @@ def run(ctx, proofs):
                     elif kf_case:
                         table_stats["skipped_known_finding"] += 1
                     if not t.bad:
-                        prods = producers(t, pf_code["id"])
+                        prods = producers(t, pf_code["id"], stage_codes)
                         for q in prods:
                             st.setdefault("manifests_by", {}).setdefault(q, 0)
                             st["manifests_by"][q] += 1
                         if (uncond or cc in CONDITIONAL_ONLY) and cc in coq_table and not kf_case:
-                            want = coq_table[cc][1]
+                            want = coq_table[cc][2]
                             table_stats["checked"] += 1
                             table_stats["coq_classes_checked"][cc] = table_stats["coq_classes_checked"].get(cc, 0) + 1
                             if want not in prods:
@@ -476,11 +492,19 @@ def run(ctx, proofs):
         if not silent and not fail:
             if front_dis:
                 d = front_dis[0]
-                ctx.violation("correspondence Model.Includes + Model.Front vs parser::parse_files broken on the injection matrix "
-                              "(%d projects; first %s): FileLibrary / user inputs / error reports differ"
-                              % (len(front_dis), d["project"]["tag"]),
-                              {"broken": "correspondence front (Model.Includes.run_project, Model.Front.front_run)", "first": d,
-                               "count": len(front_dis), "project": d["project"]}, no_input=True)
+                if d.get("stage"):
+                    ctx.violation("correspondence Model.FrontStages (version check, main components, Model.Desugar, Model.LiftFull / "
+                                  "the chain) vs parser::parse_files + generate_cfg broken on the injection matrix (%d projects; "
+                                  "first %s): the reports of the stages / the error reports of the definitions differ"
+                                  % (len(front_dis), d["project"]["tag"]),
+                                  {"broken": "correspondence front stages (Model.FrontStages.stage_run)", "first": d,
+                                   "count": len(front_dis), "project": d["project"]}, no_input=True)
+                else:
+                    ctx.violation("correspondence Model.Includes + Model.Front vs parser::parse_files broken on the injection matrix "
+                                  "(%d projects; first %s): FileLibrary / user inputs / error reports differ"
+                                  % (len(front_dis), d["project"]["tag"]),
+                                  {"broken": "correspondence front (Model.Includes.run_project, Model.Front.front_run)", "first": d,
+                                   "count": len(front_dis), "project": d["project"]}, no_input=True)
             elif table_mismatch:
                 d = table_mismatch[0]
                 ctx.violation("failure class `%s` does not manifest itself in the form Spec.NoSilentSpec.class_shape names "
@@ -497,12 +521,15 @@ def run(ctx, proofs):
             elif proofs["failures"]:
                 ctx.violation("proof obligations of C02 no longer check: " + "; ".join(proofs["failures"])[:500],
                               {"broken": "props/C02.v", "failures": proofs["failures"]}, no_input=True)
-            elif canon_broken or wf_broken:
-                which = "canon idempotent (forall p c, canon p = Some c -> canon c = Some c)" if canon_broken else "wf_project"
-                d = (canon_broken or wf_broken)[0]
+            elif canon_broken or wf_broken or metas_broken:
+                which = ("canon idempotent (forall p c, canon p = Some c -> canon c = Some c)" if canon_broken else
+                         "wf_project" if wf_broken else
+                         "body_in_file (every meta of a definition's body lies in the file of the definition)")
+                d = (canon_broken or wf_broken or metas_broken)[0]
                 ctx.violation("hypothesis `%s` of the theorems of props/C02.v does not hold on %d explored projects, first %s"
-                              % (which, len(canon_broken or wf_broken), d.get("tag")),
-                              {"broken": "hypothesis " + which, "project": d, "count": len(canon_broken or wf_broken)}, no_input=True)
+                              % (which, len(canon_broken or wf_broken or metas_broken), d.get("tag")),
+                              {"broken": "hypothesis " + which, "project": d,
+                               "count": len(canon_broken or wf_broken or metas_broken)}, no_input=True)
             else:
                 never = sorted(c for c in coq_table if not table_stats["coq_classes_checked"].get(c))
                 if never:
@@ -532,22 +559,33 @@ def run(ctx, proofs):
             "known_finding_classes_hit": sorted(known_hits),
             "disagreements_model_vs_impl": len(dis), "spec_failures": len(silent) + len(fail),
             "front": dict(front_stats, disagreements=len(front_dis)),
+            "front_stages": stage_stats,
             "class_table_mismatches": len(table_mismatch),
             "class_table": {c: list(v) for c, v in sorted(coq_table.items())},
             "class_table_source": "Spec.NoSilentSpec.class_table printed by `model_front classes` (extracted), not a copy",
             "class_table_check": table_stats,
-            "classes_derived_from_the_file_system": derived,
+            "classes_derived": derived,
+            "classes_derived_up_to_the_file_id_in_the_error_value": derived_partly,
             "classes_covered_by_the_injection_matrix_only": matrix_only,
+            "classes_derived_count": "%d of %d" % (len(derived), len(coq_table)),
             "hypotheses_evaluated": {
                 "canon_idempotent": {"holds": front_stats["canon_idempotent"], "broken": len(canon_broken),
                                      "on": "the canonicalisation table of every project the front comparison encodes"},
                 "wf_project": {"holds": wf_holds, "broken": len(wf_broken), "on": "the definitions of every ground truth"},
+                "body_in_file": {"holds": stage_stats["metas_hypothesis_holds"], "broken": len(metas_broken),
+                                 "on": "every meta of every definition the parser yields for the files of every project the stage "
+                                       "comparison encodes (Model.FrontStages.meta_in_file, evaluated by the extracted driver)"},
+                "sugar_input_returns_DOk": "a model run whose desugaring mirror does not answer DOk has `stage: null`, differs from "
+                                           "the ground truth and is a stage disagreement",
+                "err_file": "instantiated with the file of the definition in the model run; the primary file ids of the real "
+                            "InvalidVariableNameError / UndefinedVariableError reports are compared with it (front_stages."
+                            "definition_errors_compared)",
                 "parse_files_returns_Ok": "a model run that is not `ok` differs from the ground truth and is a front disagreement",
                 "analysis_order": "judged per run by lib/e2e.py judge(): the analysed definitions are a permutation of the "
                                   "definitions of the user files (a failure of the property text otherwise)",
                 "pf_id_not_allow_listed": "every run of the matrix has an empty allow list",
-                "failure_event": "derived classes: the file-system fact is what the injection creates; that the model sees it is "
-                                 "part of the front comparison (reports equal). Not evaluated as a Coq predicate",
+                "failure_event": "derived classes: the file-system / syntax-tree fact is what the injection creates; that the model "
+                                 "sees it is part of the front comparison (reports equal). Not evaluated as a Coq predicate",
             },
             "cross_file_duplicates_not_judged_by_correspondence": cross_dropped,
             "samples": [{"tag": p.tag, "class": c, "argv": p.argv} for p, c, _ in inj[:: max(1, len(inj) // 4)][:4]],
@@ -566,13 +604,23 @@ def run(ctx, proofs):
             "of every project: coverage.front.canon_idempotent); file contents are the model's parameter `content` (unreadable / does not "
             "parse / include statements with ranges), classified per file by read_to_string and parser_logic::parse_file alone "
             "(harness front content); fs::canonicalize, PathBuf and read_dir are observed through the tables (as for C19)",
-            "4 of the 10 failure classes are derived from the file system (MissingFile, UnreadableFile, SyntaxError, UnresolvedInclude: "
-            "C02_failure_classes_reported, hypothesis class_producer c = ByIncludes). For the other 6 — duplicate parameter, lift "
-            "failure (the lifter), pragma, several mains, invalid tuple / anonymous component, duplicate definition (stages outside both "
-            "mirrors) — there is no class theorem: they are covered by the injection matrix only (an error-level report must be "
-            "displayed, exit 1), plus the class table check (the ground truth shows a report of the form "
-            "Spec.NoSilentSpec.class_shape names: coverage.class_table_check, class_table_mismatches, per_class.manifests_by); once "
-            "such a report exists, C02_error_report_displayed (the runner's filter law) applies",
+            "8 of the 10 failure classes are derived (class_derivation = Derived: MissingFile, UnreadableFile, SyntaxError, "
+            "UnresolvedInclude from the file system; BadPragma, SeveralMains, InvalidTupleOrAnonymous, DuplicateParameter from what the "
+            "parser yields for the files that were read: C02_failure_classes_reported). LiftFailure is derived up to the file id inside "
+            "the InvalidVariableNameError / UndefinedVariableError value (the lifting / SSA mirrors return the error without it: "
+            "parameter err_file, asked to be absent or the definition's own file; compared on every run). DuplicateDefinition "
+            "(ProgramArchive::new, no mirror) has no class theorem: it is covered by the injection matrix only (an error-level report "
+            "must be displayed, exit 1) plus the class table check (coverage.class_table_check, class_table_mismatches, "
+            "per_class.manifests_by); once such a report exists, C02_error_report_displayed (the runner's filter law) applies",
+            "third pass, not mirrored (parameters of Model.FrontStages): the parser itself (pragma version, main component, the syntax "
+            "trees: read per file by harness `front stages` with the single-file parser), ProgramArchive::new / TemplateLibrary::new "
+            "and the anonymous-main check (`rest`), what lifting / SSA / the passes produce besides the error (`after`). The hypothesis "
+            "`every meta of a body lies in the file of its definition` is evaluated on every definition; projects in which a name is "
+            "defined twice are not compared by the stage correspondence (hash-dependent survivor, D22) and are counted",
+            "the stage correspondence inherits the fidelity of the mirrors it joins: Model.Desugar is compared with the real desugarer "
+            "by ./check C18, Model.LiftFull with the real into_cfg by ./check C13, Model.PipelineMirrors.analyse_body with the real "
+            "into_cfg + into_ssa by ./check C01; here their REPORTS (category, code, primary file ids) as Model.FrontStages."
+            "item_report renders them are compared with the real reports of parse_files / generate_cfg on every matrix project",
             "that errors.rs gives the reports of the Includes stage the category `error` and the code ReportCode::ParseFail, as "
             "Model.Front.report_of says, is compared for every such report of every project (coverage.front."
             "reports_compared_level_and_code, levels_seen, codes_seen); pf_id/pf_name of the model are instantiated with "
@@ -644,8 +692,8 @@ def replay(ctx, rep):
             fdis, fstats = c02front.compare([p], e2e.ground_truth([p]))
             print("argv:", p.argv)
             for d in fdis:
-                print("model (Model.Includes + Model.Front):", d["model"])
-                print("implementation (parse_files)        :", d["impl"])
+                print("model (Model.Includes + Model.Front%s):" % (" + Model.FrontStages" if d.get("stage") else ""), d["model"])
+                print("implementation (parse_files%s)        :" % (" + generate_cfg" if d.get("stage") else ""), d["impl"])
             print("front disagreements:", len(fdis), fstats)
             return 1 if fdis else 0
         finally:
